@@ -1,5 +1,5 @@
 \* exhaustive, typed mode: assembly 1, blocks 2-3, components 4-5, pool 6-8
-CONSTANTS N = 8  NOrig = 5  NLoc = 1  MaxLevel = 4  Typed = TRUE  MaxSet = 2  NBlk = 2
+CONSTANTS N = 8  NOrig = 5  NLoc = 1  MaxLevel = 4  Typed = TRUE  MaxSet = 2  NBlk = 2  BlkGrid = FALSE
 ACTION_CONSTRAINT Emit
 INVARIANT EmitState
 INIT Init
